@@ -16,14 +16,22 @@ from ..core import run_driver
 LEVEL = 'proof'
 LEVEL_TEXT = ('The clauses of the property (path enumeration exact, one entry per undirected path, multiplicity cap, '
               'independence of numbering and insertion order for every hash function, bit indices below the length, '
-              'active-bits formula) are universally quantified Lean theorems about the executable model; the model is '
+              'active-bits formula, index-count bounds, independence of the iteration order of the intermediate sets, locality '
+              'of the Morgan identifiers in the r-ball) are universally quantified Lean theorems about the executable model; '
+              'parameter forwarding between the entry points is a theorem over a call-graph table regenerated from the AST on '
+              'every run (every argument is the caller\'s same-named unmodified parameter, nothing shared is left to a callee '
+              'default, every parameter reaches the layer that reads it) and is exercised at run time by calling every entry '
+              'point with every parameter non-default, positionally and by keyword; the model is '
               'tied to today\'s source by exact output equality (as CPython integers) on generated molecules x renumberings '
               'x the parameter grid. Proof is the right level because the algorithms are pure functions of the graph.')
 LEVEL_NOTE = ('Lean kernel; hand-written model validated by correspondence, not derived from the Python text; the model '
               'of CPython hash() (Py/Hash.lean) is validated on every hash the run produces; theorems about hash sets hold '
-              'for every hash function. Graph well-formedness (Mol.WF: symmetric adjacency over the atom keys) is a '
+              'for every hash function. int(math.log2(length)) goes through a C double: the model takes the lengths at which the '
+              'float logarithm rounds up from a table measured on every run (first at 2^49-1; below that it is proved to be '
+              'Nat.log2), exact for lengths < 2^64. Graph well-formedness (Mol.WF: symmetric adjacency over the atom keys) is a '
               'hypothesis where stated — it is the Graph class invariant.')
-TECHNIQUE = 'Lean 4 theorems over an executable model + exact differential correspondence with the implementation'
+TECHNIQUE = ('Lean 4 theorems over an executable model and over regenerated AST tables (memoisation, defaults, call graph) '
+             '+ exact differential correspondence with the implementation')
 HAS_DRIVER = True
 EXTRA_MODULES = []
 FINDINGS_MODULE = None   # the one defect found (linear_hash_smiles) was repaired; no standing ¬full witness
@@ -37,10 +45,12 @@ TRUSTED = ['hand transcription Model/Fingerprint.lean (validated by this corresp
            'wire format harness/wire.py <-> Model/Graph.lean']
 ASSUMPTIONS = ['the semantic theorems assume the Graph invariant Mol.WF (symmetric adjacency dict over the atom keys); on other '
                'graphs the model raises KeyError like the code does (compared on a malformed-graph stream)',
-               'length is an int; int(log2(length)) is exact for the lengths used (powers of two, and small non-powers)',
+               'length is an int below 2^64; math.log2 is monotone between the probed points of the measured round-up table '
+               '(Gen.C17.log2RoundsUpFrom); beyond 2^64 the model falls back to Nat.log2 and is not compared',
                'FingerprintsCGR._atom_identifiers (CGR containers) is outside the model',
                'linear_hash_smiles/linear_smiles_hash/morgan_hash_smiles/morgan_smiles_hash (SMILES rendering of fragments) '
-               'are outside the model; only their hash keys are covered through linear_hash_set/morgan_hash_set']
+               'are outside the model; their hash keys / hash values are compared with linear_hash_set/morgan_hash_set of the model '
+               'for every parameter (forwarding stream), their argument forwarding is in the regenerated call-graph table']
 SEARCH_ALWAYS_IN_THOROUGH = True
 
 LINEAR_OPS = ('chains', 'frags', 'lhs', 'lbs', 'lfp')
